@@ -153,6 +153,12 @@ func WithBytes(seq Sequence, p []byte) Sequence {
 	}
 }
 
+// translate moves every coordinate of the location, including a site at
+// position 0, downstream by n (n >= 0).
+func translate(loc Location, n int) Location {
+	return loc.Expand(-1, n)
+}
+
 func insert(p []byte, pos int, q []byte) []byte {
 	return append(p[:pos], append(q, p[pos:]...)...)
 }
@@ -171,7 +177,7 @@ func Insert(host Sequence, index int, guest Sequence) Sequence {
 		ff = ff.Insert(f)
 	}
 	for _, f := range guest.Features() {
-		f.Loc = f.Loc.Expand(0, index)
+		f.Loc = translate(f.Loc, index)
 		ff = ff.Insert(f)
 	}
 	host = WithFeatures(host, ff)
@@ -196,7 +202,7 @@ func Embed(host Sequence, index int, guest Sequence) Sequence {
 		ff = ff.Insert(f)
 	}
 	for _, f := range guest.Features() {
-		f.Loc = f.Loc.Expand(0, index)
+		f.Loc = translate(f.Loc, index)
 		ff = ff.Insert(f)
 	}
 	host = WithFeatures(host, ff)
@@ -300,7 +306,7 @@ func Concat(ss ...Sequence) Sequence {
 
 		for _, seq := range tail {
 			for _, f := range seq.Features() {
-				f.Loc = f.Loc.Expand(0, len(p))
+				f.Loc = translate(f.Loc, len(p))
 				ff = ff.Insert(f)
 			}
 			p = append(p, seq.Bytes()...)
@@ -341,7 +347,7 @@ func Rotate(seq Sequence, n int) Sequence {
 
 	var ff FeatureSlice
 	for _, f := range seq.Features() {
-		f.Loc = f.Loc.Expand(0, n).Normalize(Len(seq))
+		f.Loc = translate(f.Loc, n).Normalize(Len(seq))
 		ff = ff.Insert(f)
 	}
 
